@@ -97,3 +97,28 @@ pub fn decorate(t: &mut Tape, src: &str) -> String {
 pub fn crlf(src: &str) -> String {
     src.replace("\r\n", "\n").replace('\n', "\r\n")
 }
+
+/// Renames one to three generated names (`c3`, `id`, `t1`, `l0`, `r2` ...) throughout the program
+/// text to longer ones, so that every construct is met at many different columns (the formatter
+/// decides per line what still fits). No string literal of the model contains such a word.
+pub fn stretch(t: &mut Tape, src: &str) -> String {
+    let re = regex::Regex::new(r"\b(c[0-9]+|id|t[0-9]|l[0-9]|r[0-9])\b").unwrap();
+    let mut names: Vec<String> = vec![];
+    for m in re.find_iter(src) {
+        if !names.iter().any(|n| n == m.as_str()) {
+            names.push(m.as_str().to_string());
+        }
+    }
+    if names.is_empty() {
+        return src.to_string();
+    }
+    let mut out = src.to_string();
+    for _ in 0..1 + t.choose(3) {
+        let n = names[t.choose(names.len())].clone();
+        let k = 1 + t.choose(45);
+        let long = format!("{n}_{}", "x".repeat(k));
+        let one = regex::Regex::new(&format!(r"\b{}\b", regex::escape(&n))).unwrap();
+        out = one.replace_all(&out, long.as_str()).into_owned();
+    }
+    out
+}
